@@ -287,7 +287,7 @@ theorem cqm_fix_all_vars [DecidableEq R] (m : CqmL R) (hm : m.c.WF) (hnd : m.lab
 /-- **`remove_variable(v)`** on any state satisfying the representation invariant removes exactly the terms that mention `v` -/
 theorem pybqm_remove_variable_eval (m : LBqm Rat) (g : LBqm.GInv m) (v : Label) (nv : ODict Label Rat)
     (hv : ODict.get? m.adj v = some nv) :
-    ∃ m', m.removeVariable v = .ok m' ∧ LBqm.GInv m' ∧ m'.vt = m.vt ∧
+    ∃ m', m.removeVariable v = .ok m' ∧ LBqm.GInv m' ∧ m'.vt = m.vt ∧ okeys m'.adj = (okeys m.adj).erase v ∧
       ∀ x, LBqm.evalL (1/2) m' x
         = LBqm.evalL (1/2) m x - (LBqm.lbias v nv * x v + ((LBqm.others v nv).map fun p => p.2 * (x v * x p.1)).sum) :=
   LBqm.removeVariable_evalL g v nv hv
@@ -299,7 +299,8 @@ theorem pybqm_fix_eval (m : LBqm Rat) (g : LBqm.GInv m) (v : Label) (hv : v ∈ 
     ∃ m', m.fixVariable v a = .ok m' ∧ LBqm.GInv m' ∧ m'.vt = m.vt ∧ v ∉ okeys m'.adj ∧
       ∀ x, x v = a → LBqm.repEval m' x = LBqm.repEval m x := by
   obtain ⟨m', h1, h2, h3, h4, h5⟩ := LBqm.fixVariable_evalL g v hv a
-  refine ⟨m', h1, h2, h3, h4, fun x hx => ?_⟩
+  have h4' : v ∉ okeys m'.adj := by rw [h4]; exact List.Nodup.not_mem_erase g.s.nodup
+  refine ⟨m', h1, h2, h3, h4', fun x hx => ?_⟩
   rw [← LBqm.evalL_eq_repEval m' h2.toLInv, ← LBqm.evalL_eq_repEval m g.toLInv]
   exact h5 x hx
 
@@ -311,5 +312,43 @@ theorem pybqm_fix_after_history (vt : En.VT) (calls : List (En.VT × LBqm.VOp Ra
       ∀ x, x v = a → LBqm.repEval m' x = LBqm.repEval (LBqm.vrun vt calls) x := by
   obtain ⟨m', h1, _, _, h4, h5⟩ := pybqm_fix_eval _ (LBqm.GInv.vrun vt calls) v hv a
   exact ⟨m', h1, h4, h5⟩
+
+/-- **several variables on the dict back-end, any invariant state** (`fix_variables` = the loop over `fix_variable`): for
+    distinct variables of the model, in any order, the loop succeeds, the remaining variables are the others in their order, the
+    invariant is kept, and at every assignment giving the fixed variables their values the energy computed from the reported
+    coefficients is that of the original (simultaneous substitution) -/
+theorem pybqm_fix_many_eval (m : LBqm Rat) (g : LBqm.GInv m) (fixed : List (Label × Rat)) (hnd : (fixed.map (·.1)).Nodup)
+    (hall : ∀ p ∈ fixed, p.1 ∈ okeys m.adj) :
+    ∃ m', m.fixVariables fixed = .ok m' ∧ LBqm.GInv m' ∧ m'.vt = m.vt ∧
+      okeys m'.adj = (okeys m.adj).filter (fun l => !(fixed.map (·.1)).contains l) ∧
+      ∀ x, (∀ p ∈ fixed, x p.1 = p.2) → LBqm.repEval m' x = LBqm.repEval m x := by
+  obtain ⟨m', h1, h2, h3, h4, h5⟩ := LBqm.fixVariables_evalL fixed m g hnd hall
+  refine ⟨m', h1, h2, h3, h4, fun x hx => ?_⟩
+  rw [← LBqm.evalL_eq_repEval m' h2.toLInv, ← LBqm.evalL_eq_repEval m g.toLInv]
+  exact h5 x hx
+
+/-- … after any history of calls through the model and its views; and with **every variable fixed** nothing is left and the
+    offset of the result is the energy of the original at the fixed values -/
+theorem pybqm_fix_many_after_history (vt : En.VT) (calls : List (En.VT × LBqm.VOp Rat)) (fixed : List (Label × Rat))
+    (hnd : (fixed.map (·.1)).Nodup) (hall : ∀ p ∈ fixed, p.1 ∈ okeys (LBqm.vrun vt calls).adj) :
+    ∃ m', (LBqm.vrun vt calls).fixVariables fixed = .ok m' ∧
+      (∀ x, (∀ p ∈ fixed, x p.1 = p.2) → LBqm.repEval m' x = LBqm.repEval (LBqm.vrun vt calls) x) ∧
+      ((∀ l ∈ okeys (LBqm.vrun vt calls).adj, l ∈ fixed.map (·.1)) → m'.adj = [] ∧
+        ∀ x, (∀ p ∈ fixed, x p.1 = p.2) → m'.off = LBqm.repEval (LBqm.vrun vt calls) x) := by
+  obtain ⟨m', h1, _, _, h4, h5⟩ := pybqm_fix_many_eval _ (LBqm.GInv.vrun vt calls) fixed hnd hall
+  refine ⟨m', h1, h5, fun hcover => ?_⟩
+  have hnil : m'.adj = [] := by
+    have : okeys m'.adj = [] := by
+      rw [h4]
+      apply List.filter_eq_nil_iff.mpr
+      intro l hl
+      simp [hcover l hl]
+    unfold okeys at this
+    exact List.map_eq_nil_iff.mp this
+  refine ⟨hnil, fun x hx => ?_⟩
+  rw [← h5 x hx]
+  unfold LBqm.repEval LBqm.iterQuadratic
+  rw [hnil]
+  simp [LBqm.iterQuadratic.go]
 
 end C03
